@@ -554,12 +554,16 @@ class FileCache(CacheMixin):
         if "type_identifier" in metadata:
             t = state_types_registry().get(metadata["type_identifier"])
             path = self.to_path(key, prefix="data_", extension=t.default_extension())
-            if os.path.exists(path):
+            try:
                 os.remove(path)
+            except FileNotFoundError:
+                pass  # never written, or removed concurrently
 
         state_path = self.to_path(key)
-        if os.path.exists(state_path):
+        try:
             os.remove(state_path)
+        except FileNotFoundError:
+            pass
 
         return True
 
